@@ -50,9 +50,19 @@ pub enum ELayer {
     /// ForceFlag / WithDimensions implemented as InflectableEntry, then rooted
     RootedForce(ForceKind),
     RootedWithDims(Vec<(String, String)>),
+    /// the container impls of InflectableEntry (Option / Box / Arc / Cow / &T), then rooted
+    RootedOption,
+    RootedBox,
+    RootedArc,
+    RootedCow,
+    RootedRef,
+    /// an absent entry: nothing written, empty sample group, whatever was wrapped so far
+    OptionNone,
+    RootedOptionNone,
 }
 
 /// `InflectableEntry` adapter over any `Entry` (for every name style)
+#[derive(Clone)]
 pub struct Infl<E>(pub E);
 impl<NS: metrique_core::NameStyle, E: Entry> InflectableEntry<NS> for Infl<E> {
     fn write<'a>(&'a self, w: &mut impl EntryWriter<'a>) {
@@ -171,6 +181,39 @@ fn apply(layer: &ELayer, e: BoxEntry) -> BoxEntry {
         ELayer::RootedWithDims(d) => BoxEntry::new(RootEntry::new(
             WithDimensions::<_, 1>::new_with_dimensions(Infl(e), dims_cow(d)),
         )),
+        ELayer::RootedOption => BoxEntry::new(RootEntry::new(Some(Infl(e)))),
+        ELayer::RootedBox => BoxEntry::new(RootEntry::new(Box::new(Infl(e)))),
+        ELayer::RootedArc => BoxEntry::new(RootEntry::new(Arc::new(Infl(SyncBox(e))))),
+        ELayer::RootedCow => {
+            let c: Cow<'static, Infl<CowEntry>> = Cow::Owned(Infl(CowEntry(Arc::new(SyncBox(e)))));
+            BoxEntry::new(RootEntry::new(c))
+        }
+        ELayer::RootedRef => {
+            struct Holder {
+                rooted: RootEntry<&'static Infl<SyncBox>>,
+                _e: Box<Infl<SyncBox>>,
+            }
+            impl Entry for Holder {
+                fn write<'a>(&'a self, w: &mut impl EntryWriter<'a>) {
+                    self.rooted.write(w)
+                }
+                fn sample_group(&self) -> impl Iterator<Item = (Cow<'static, str>, Cow<'static, str>)> {
+                    self.rooted.sample_group()
+                }
+            }
+            let b = Box::new(Infl(SyncBox(e)));
+            // SAFETY: the box is never moved out of or dropped before the holder
+            let r: &'static Infl<SyncBox> = unsafe { &*(&*b as *const Infl<SyncBox>) };
+            BoxEntry::new(Holder { rooted: RootEntry::new(r), _e: b })
+        }
+        ELayer::OptionNone => {
+            drop(e);
+            BoxEntry::new(None::<BoxEntry>)
+        }
+        ELayer::RootedOptionNone => {
+            drop(e);
+            BoxEntry::new(RootEntry::new(None::<Infl<BoxEntry>>))
+        }
     }
 }
 
@@ -294,7 +337,13 @@ fn model(layer: &ELayer, log: Vec<Rec>, sg: Sg) -> (Vec<Rec>, Sg) {
         | ELayer::ArcPtr
         | ELayer::Ref
         | ELayer::CowOwned
-        | ELayer::Rooted => (log, sg),
+        | ELayer::Rooted
+        | ELayer::RootedOption
+        | ELayer::RootedBox
+        | ELayer::RootedArc
+        | ELayer::RootedCow
+        | ELayer::RootedRef => (log, sg),
+        ELayer::OptionNone | ELayer::RootedOptionNone => (vec![], vec![]),
         ELayer::MergeGlobalsFirst(g) | ELayer::MergeByRefGlobalsFirst(g) => {
             let p = g.prepare();
             let mut l = record(&p).recs;
@@ -378,6 +427,13 @@ fn layer_class(l: &ELayer) -> &'static str {
         ELayer::Rooted => "layer-root-entry",
         ELayer::RootedForce(_) => "layer-inflectable-force-flag",
         ELayer::RootedWithDims(_) => "layer-inflectable-with-dimensions",
+        ELayer::RootedOption => "layer-inflectable-option",
+        ELayer::RootedBox => "layer-inflectable-box",
+        ELayer::RootedArc => "layer-inflectable-arc",
+        ELayer::RootedCow => "layer-inflectable-cow",
+        ELayer::RootedRef => "layer-inflectable-ref",
+        ELayer::OptionNone => "layer-option-none",
+        ELayer::RootedOptionNone => "layer-inflectable-option-none",
     }
 }
 
@@ -390,6 +446,9 @@ fn sg_sig(layers: &[ELayer]) -> String {
             ELayer::WithGlobalDims(..) => return "sample-group-lost:WithGlobalDimensions".into(),
             ELayer::RootedForce(_) => return "sample-group-lost:ForceFlag-inflectable".into(),
             ELayer::RootedWithDims(_) => return "sample-group-lost:WithDimensions-inflectable".into(),
+            ELayer::RootedOption | ELayer::RootedBox | ELayer::RootedArc | ELayer::RootedCow | ELayer::RootedRef => {
+                return "sample-group-lost:inflectable-container".into();
+            }
             _ => {}
         }
     }
@@ -437,7 +496,12 @@ pub fn check_entry(case: &EntryCase) -> CaseResult {
             en.get(first)
         );
     }
-    if got_sg != exp_sg {
+    let sorted = |v: &Sg| {
+        let mut v = v.clone();
+        v.sort();
+        v
+    };
+    if sorted(&got_sg) != sorted(&exp_sg) {
         vfail!(
             sg_sig(&case.layers),
             "layers {:?}: sample group {:?}, expected {:?}",
@@ -510,6 +574,12 @@ fn arb_layer() -> impl Strategy<Value = ELayer> {
         Just(ELayer::Rooted),
         arb_force().prop_map(ELayer::RootedForce),
         arb_small_dims().prop_map(ELayer::RootedWithDims),
+        Just(ELayer::RootedOption),
+        Just(ELayer::RootedBox),
+        Just(ELayer::RootedArc),
+        Just(ELayer::RootedCow),
+        Just(ELayer::RootedRef),
+        prop_oneof![1 => Just(ELayer::OptionNone), 1 => Just(ELayer::RootedOptionNone), 6 => Just(ELayer::OptionSome)],
     ]
 }
 
@@ -929,7 +999,12 @@ pub fn check_stream(case: &StreamCase) -> CaseResult {
                 normalise(&exp)
             );
         }
-        if got[i].1 != sg {
+        if {
+            let (mut a, mut b) = (got[i].1.clone(), sg.clone());
+            a.sort();
+            b.sort();
+            a != b
+        } {
             let sig = match layers.iter().rev().find(|l| !matches!(l, SLayer::MergeGlobals(_))) {
                 Some(SLayer::Force(_)) => "sample-group-lost:ForceFlag-entry",
                 Some(SLayer::MergeGlobalDims(..)) => "sample-group-lost:WithGlobalDimensions",
@@ -980,7 +1055,7 @@ pub fn run(ctx: &mut Ctx) {
     ctx.explore(
         SubCfg::new(
             "c15-entry-wrappers",
-            "arbitrary entry (strings, multi-observation metrics, units, dimensions, flags, error values, empty values, configs, timestamps, non-empty sample group) under 1-4 wrapper layers drawn from 15 kinds (BoxEntry, Option/Box/Arc/&/Cow, merge / merge_by_ref globals-first and other-last, WithDimensions, WithGlobalDimensions + deny list, ForceFlag<HighRes|NoMetric|Test> as Entry, RootEntry over an InflectableEntry adapter, ForceFlag / WithDimensions as InflectableEntry). Oracle: RecLog(wrapped) == documented transform of RecLog(plain) (identity; globals first; dimensions appended after existing ones except deny-listed names; flags merged) and sample_group() preserved / chained. Non-trivial = entry with an error value, >=2 observations, existing dimensions, a config or a sample group, under >=2 layers",
+            "arbitrary entry (strings, multi-observation metrics, units, dimensions, flags, error values, empty values, configs, timestamps, non-empty sample group) under 1-4 wrapper layers drawn from 22 kinds (BoxEntry, Option Some/None, Box/Arc/&/Cow, the same five containers as InflectableEntry under RootEntry, merge / merge_by_ref globals-first and other-last, WithDimensions, WithGlobalDimensions + deny list, ForceFlag<HighRes|NoMetric|Test> as Entry, RootEntry over an InflectableEntry adapter, ForceFlag / WithDimensions as InflectableEntry). Oracle: RecLog(wrapped) == documented transform of RecLog(plain) (identity; globals first; dimensions appended after existing ones except deny-listed names; flags merged) and sample_group() preserved / chained (compared as a multiset: the library documents that pair order does not matter). Non-trivial = entry with an error value, >=2 observations, existing dimensions, a config or a sample group, under >=2 layers",
             if q { 40_000 } else { 1_500_000 },
         )
         .threads(threads)
@@ -988,7 +1063,8 @@ pub fn run(ctx: &mut Ctx) {
             "layer-boxed", "layer-option", "layer-box", "layer-arc", "layer-ref", "layer-cow", "layer-merge",
             "layer-merge-other-last", "layer-merge-by-ref", "layer-with-dimensions", "layer-with-global-dimensions",
             "layer-force-flag", "layer-root-entry", "layer-inflectable-force-flag",
-            "layer-inflectable-with-dimensions", "has-error-value", "more-than-inline-observations",
+            "layer-inflectable-with-dimensions", "layer-inflectable-option", "layer-inflectable-box", "layer-inflectable-arc",
+            "layer-inflectable-cow", "layer-inflectable-ref", "layer-option-none", "layer-inflectable-option-none", "has-error-value", "more-than-inline-observations",
             "existing-dimensions", "has-config", "non-empty-sample-group",
         ]),
         || {
